@@ -1,10 +1,8 @@
-// Driver for the scripted schedules on TraditionalDnsConn (C01, C02, C09, C07 core).
+// Driver for the scripted schedules on TraditionalDnsConn (C01, C02; C09 and C07 have combined drivers).
 package main
 
 import (
 	"flag"
-	"fmt"
-	"sort"
 
 	"verifharness/hx"
 	"verifharness/tdcx"
@@ -15,51 +13,5 @@ func main() {
 	o := hx.ParseFlags()
 	w := hx.NewWriter(o)
 	defer w.Close()
-
-	emit := func(id string, s tdcx.Script, obs []tdcx.Obs, f tdcx.Final) {
-		acts := make([]string, len(s.Actions))
-		for i, a := range s.Actions {
-			acts[i] = a.String()
-		}
-		fkey := ""
-		if f.IdleRearm {
-			fkey = "idle-rearm-with-outstanding"
-		}
-		w.Emit("script", hx.Case{ID: id, FKey: fkey, Coq: tdcx.CaseCoq(s, obs, f),
-			Desc: map[string]any{"tcp": s.TCP, "maxcq": s.MaxCq, "nq0": s.Nq0, "actions": acts, "blocked": f.Blocked,
-				"reserved": f.Reserved, "queued": f.Queued, "closed": f.Closed}})
-		w.Tally("actions", len(s.Actions))
-	}
-
-	cat := tdcx.Catalogue()
-	names := make([]string, 0, len(cat))
-	for n := range cat {
-		names = append(names, n)
-	}
-	sort.Strings(names)
-	for _, n := range names {
-		id := "cat:" + n
-		if !o.Want(id) {
-			continue
-		}
-		reps := 1
-		if len(n) > 3 && n[:3] == "c02" {
-			reps = o.Count(6, 40) / 2 // Go's select picks randomly among ready cases
-		}
-		for i := 0; i < reps; i++ {
-			s, obs, f := tdcx.RunScript(cat[n])
-			emit(id, s, obs, f)
-		}
-	}
-	n := o.Count(700, 12000)
-	for i := 0; i < n; i++ {
-		id := fmt.Sprintf("gen:%s:%d", *focus, i)
-		if !o.Want(id) {
-			continue
-		}
-		r := hx.NewRNG(o.Seed, id)
-		s0, next := tdcx.RandomNext(r, *focus, r.Range(8, 40))
-		s, obs, f := tdcx.Run(s0, next)
-		emit(id, s, obs, f)
-	}
+	tdcx.Drive(w, o, *focus, func(s string) string { return s })
 }
